@@ -1,8 +1,316 @@
-(* C18 -- property theorems only. *)
-From Coq Require Import List Arith ZArith.
+(* C18 -- property theorems only.  Each is closed by [exact] of a lemma of Proofs.v and
+   followed by Print Assumptions.  All ring statements hold for every commutative ring
+   (R, 0, 1, +, *, -, opp) with Leibniz equality, in particular the reals; Model.centry /
+   Model.tentry / Model.kentry are the entries of asarray() / asmatrix(). *)
+From Coq Require Import List Arith ZArith Ring.
 From Verif.C18 Require Import Model Proofs.
 Import ListNotations.
 
-Theorem int_index_in_range : forall n i k, wrap n i = Some k -> k < n.
+(* range(n)[i] for an int i (negative allowed) is an existing position. *)
+Theorem int_index_in_range :
+  forall (n : nat) (i : Z) (k : nat), wrap n i = Some k -> k < n.
 Proof. exact wrap_in_range. Qed.
 Print Assumptions int_index_in_range.
+
+(* ... namely i itself, or i + n for a negative i (Python semantics). *)
+Theorem int_index_wraps :
+  forall (n : nat) (i : Z) (k : nat),
+    wrap n i = Some k -> Z.of_nat k = (if (i <? 0)%Z then (i + Z.of_nat n)%Z else i).
+Proof. exact wrap_value. Qed.
+Print Assumptions int_index_wraps.
+
+(* range(n)[start:stop:step]: for EVERY start/stop/step (None, negative, beyond the ends) only existing positions are selected. *)
+Theorem slice_selects_existing_positions :
+  forall (n : nat) (start stop step : option Z) (rs : list nat) (k : nat),
+    slice_range n start stop step = Ok rs -> In k rs -> k < n.
+Proof. exact slice_range_in_range. Qed.
+Print Assumptions slice_selects_existing_positions.
+
+(* the slice added for missing trailing axes selects everything in order. *)
+Theorem slice_default_is_identity :
+  forall n : nat, slice_range n None None None = Ok (seq 0 n).
+Proof. exact slice_full. Qed.
+Print Assumptions slice_default_is_identity.
+
+(* _normalize_indices: on success there were at most ndim indices, the result has one entry per axis and every selected position exists. *)
+Theorem normalize_indices_wellformed :
+  forall (II : list index) (shape : list nat) (ax : list (list nat * bool)),
+    normalize_indices II shape = Ok ax ->
+    length II <= length shape /\
+    length ax = length shape /\
+    Forall2 (fun (n : nat) (a : list nat * bool) => forall k : nat, In k (fst a) -> k < n) shape ax.
+Proof. exact normalize_indices_ok. Qed.
+Print Assumptions normalize_indices_wellformed.
+
+(* more indices than axes is a ValueError. *)
+Theorem normalize_indices_too_many :
+  forall (II : list index) (shape : list nat),
+    length shape < length II -> normalize_indices II shape = Err ValueError.
+Proof. exact normalize_indices_too_many. Qed.
+Print Assumptions normalize_indices_too_many.
+
+(* asarray(A + B) = asarray(A) + asarray(B) for canonical tensors of any order, shape and ranks (rank 0 included). *)
+Theorem canon_add :
+  forall (R : Type) (rO rI : R) (radd rmul rsub : R -> R -> R) (ropp : R -> R),
+    ring_theory rO rI radd rmul rsub ropp eq ->
+    forall (A B : list (mat R)) (idx : list nat) (ra rb : nat),
+    uniform R A ra ->
+    uniform R B rb ->
+    length A = length B ->
+    A <> [] ->
+    centry R rO rI radd rmul (canon_add R A B) idx =
+    radd (centry R rO rI radd rmul A idx) (centry R rO rI radd rmul B idx).
+Proof. exact canon_add_spec. Qed.
+Print Assumptions canon_add.
+
+(* asarray(-A) = -asarray(A). *)
+Theorem canon_neg :
+  forall (R : Type) (rO rI : R) (radd rmul rsub : R -> R -> R) (ropp : R -> R),
+    ring_theory rO rI radd rmul rsub ropp eq ->
+    forall (A : list (mat R)) (idx : list nat),
+    length idx = length A ->
+    centry R rO rI radd rmul (canon_neg R ropp A) idx = ropp (centry R rO rI radd rmul A idx).
+Proof. exact canon_neg_spec. Qed.
+Print Assumptions canon_neg.
+
+(* the row-selection half of CanonicalTensor.__getitem__: entry idx of the selected tensor is entry (rows[k][idx[k]])_k of the original, for arbitrary position lists (slices, steps, index lists). *)
+Theorem canon_getitem_rows :
+  forall (R : Type) (rO rI : R) (radd rmul : R -> R -> R) (A : list (mat R)) 
+      (rss : list (list nat)) (idx : list nat),
+    length rss = length A ->
+    centry R rO rI radd rmul
+      (map (fun p : mat R * list nat => mat_rows R (fst p) (snd p)) (combine A rss)) idx =
+    centry R rO rI radd rmul A (sel_idx rss idx).
+Proof. exact canon_rows_spec. Qed.
+Print Assumptions canon_getitem_rows.
+
+(* asarray(apply_tprod(Bs, A)) = apply_tprod(Bs, asarray(A)) for canonical A, None placeholders and fewer operators than axes included. *)
+Theorem canon_nway :
+  forall (R : Type) (rO rI : R) (radd rmul rsub : R -> R -> R) (ropp : R -> R),
+    ring_theory rO rI radd rmul rsub ropp eq ->
+    forall (A : list (mat R)) (Bs : list (option (mat R))) (idx : list nat),
+    length Bs <= length A ->
+    length idx = length A ->
+    centry R rO rI radd rmul (factors_nway R rO radd rmul Bs A) idx =
+    tprod R rO radd rmul (pad_ops R Bs (length A)) (centry R rO rI radd rmul A) idx.
+Proof. exact canon_nway_spec. Qed.
+Print Assumptions canon_nway.
+
+(* asarray(-T) = -asarray(T) for Tucker tensors. *)
+Theorem tucker_neg :
+  forall (R : Type) (rO rI : R) (radd rmul rsub : R -> R -> R) (ropp : R -> R),
+    ring_theory rO rI radd rmul rsub ropp eq ->
+    forall (Us : list (mat R)) (X : full R) (idx : list nat),
+    tentry R rO radd rmul Us (full_neg R ropp X) idx = ropp (tentry R rO radd rmul Us X idx).
+Proof. exact tucker_neg_spec. Qed.
+Print Assumptions tucker_neg.
+
+(* asarray(apply_tprod(Bs, T)) = apply_tprod(Bs, asarray(T)) for Tucker T. *)
+Theorem tucker_nway :
+  forall (R : Type) (rO rI : R) (radd rmul rsub : R -> R -> R) (ropp : R -> R),
+    ring_theory rO rI radd rmul rsub ropp eq ->
+    forall (Us : list (mat R)) (X : full R) (Bs : list (option (mat R))) (idx : list nat),
+    length Bs <= length Us ->
+    length idx = length Us ->
+    tentry R rO radd rmul (factors_nway R rO radd rmul Bs Us) X idx =
+    tprod R rO radd rmul (pad_ops R Bs (length Us)) (tentry R rO radd rmul Us X) idx.
+Proof. exact tucker_nway_spec. Qed.
+Print Assumptions tucker_nway.
+
+(* join_tucker_bases: TuckerTensor(U, X1) expands to T1 ... *)
+Theorem join_bases_spec_first :
+  forall (R : Type) (rO rI : R) (radd rmul rsub : R -> R -> R) (ropp : R -> R),
+    ring_theory rO rI radd rmul rsub ropp eq ->
+    forall (U1 : list (mat R)) (X1 : full R) (U2 : list (mat R)) (X2 : full R) (idx : list nat),
+    core_ok R U1 X1 ->
+    length U2 = length U1 ->
+    length idx = length U1 ->
+    tentry R rO radd rmul (join_U R U1 U2) (join_X1 R rO X1 X2) idx = tentry R rO radd rmul U1 X1 idx.
+Proof. exact join_bases_1. Qed.
+Print Assumptions join_bases_spec_first.
+
+(* ... and TuckerTensor(U, X2) expands to T2. *)
+Theorem join_bases_spec_second :
+  forall (R : Type) (rO rI : R) (radd rmul rsub : R -> R -> R) (ropp : R -> R),
+    ring_theory rO rI radd rmul rsub ropp eq ->
+    forall (U1 : list (mat R)) (X1 : full R) (U2 : list (mat R)) (X2 : full R) (idx : list nat),
+    core_ok R U1 X1 ->
+    core_ok R U2 X2 ->
+    length U2 = length U1 ->
+    length idx = length U1 ->
+    tentry R rO radd rmul (join_U R U1 U2) (join_X2 R rO X1 X2) idx = tentry R rO radd rmul U2 X2 idx.
+Proof. exact join_bases_2. Qed.
+Print Assumptions join_bases_spec_second.
+
+(* asarray(T1 + T2) = asarray(T1) + asarray(T2). *)
+Theorem tucker_add :
+  forall (R : Type) (rO rI : R) (radd rmul rsub : R -> R -> R) (ropp : R -> R),
+    ring_theory rO rI radd rmul rsub ropp eq ->
+    forall (U1 : list (mat R)) (X1 : full R) (U2 : list (mat R)) (X2 : full R) (idx : list nat),
+    core_ok R U1 X1 ->
+    core_ok R U2 X2 ->
+    length U2 = length U1 ->
+    length idx = length U1 ->
+    tentry R rO radd rmul (join_U R U1 U2) (full_add R radd (join_X1 R rO X1 X2) (join_X2 R rO X1 X2)) idx =
+    radd (tentry R rO radd rmul U1 X1 idx) (tentry R rO radd rmul U2 X2 idx).
+Proof. exact tucker_add_spec. Qed.
+Print Assumptions tucker_add.
+
+(* asarray(T1 - T2) = asarray(T1) - asarray(T2). *)
+Theorem tucker_sub :
+  forall (R : Type) (rO rI : R) (radd rmul rsub : R -> R -> R) (ropp : R -> R),
+    ring_theory rO rI radd rmul rsub ropp eq ->
+    forall (U1 : list (mat R)) (X1 : full R) (U2 : list (mat R)) (X2 : full R) (idx : list nat),
+    core_ok R U1 X1 ->
+    core_ok R U2 X2 ->
+    length U2 = length U1 ->
+    length idx = length U1 ->
+    tentry R rO radd rmul (join_U R U1 U2) (full_sub R rsub (join_X1 R rO X1 X2) (join_X2 R rO X1 X2)) idx =
+    rsub (tentry R rO radd rmul U1 X1 idx) (tentry R rO radd rmul U2 X2 idx).
+Proof. exact tucker_sub_spec. Qed.
+Print Assumptions tucker_sub.
+
+(* TuckerTensor.from_tensor(CanonicalTensor) expands to the same array (order >= 1; with the repaired diagonal core, fixes/C18-tucker-from-1d-canonical.patch). *)
+Theorem canon_to_tucker :
+  forall (R : Type) (rO rI : R) (radd rmul rsub : R -> R -> R) (ropp : R -> R),
+    ring_theory rO rI radd rmul rsub ropp eq ->
+    forall (Xs : list (mat R)) (idx : list nat),
+    uniform R Xs (crank R Xs) ->
+    Xs <> [] ->
+    length idx = length Xs ->
+    tentry R rO radd rmul Xs (diag_core R rO rI (length Xs) (crank R Xs)) idx =
+    centry R rO rI radd rmul Xs idx.
+Proof. exact canon_to_tucker_spec. Qed.
+Print Assumptions canon_to_tucker.
+
+(* asmatrix(A.T) = asmatrix(A)^T, entry-wise. *)
+Theorem canop_transpose :
+  forall (R : Type) (rO rI : R) (radd rmul : R -> R -> R) (Op : canop R) (I J : list nat),
+    kentry R rO rI radd rmul (canop_T R Op) I J = kentry R rO rI radd rmul Op J I.
+Proof. exact canop_T_spec. Qed.
+Print Assumptions canop_transpose.
+
+(* asmatrix(A + B) = asmatrix(A) + asmatrix(B). *)
+Theorem canop_add :
+  forall (R : Type) (rO rI : R) (radd rmul rsub : R -> R -> R) (ropp : R -> R),
+    ring_theory rO rI radd rmul rsub ropp eq ->
+    forall (A B : canop R) (I J : list nat),
+    kentry R rO rI radd rmul (canop_add R A B) I J =
+    radd (kentry R rO rI radd rmul A I J) (kentry R rO rI radd rmul B I J).
+Proof. exact canop_add_spec. Qed.
+Print Assumptions canop_add.
+
+(* asmatrix(-A) = -asmatrix(A). *)
+Theorem canop_neg :
+  forall (R : Type) (rO rI : R) (radd rmul rsub : R -> R -> R) (ropp : R -> R),
+    ring_theory rO rI radd rmul rsub ropp eq ->
+    forall (A : list (list (mat R))) (I J : list nat),
+    Forall (fun t : list (mat R) => t <> []) A ->
+    I <> [] ->
+    J <> [] -> kentry R rO rI radd rmul (canop_neg R ropp A) I J = ropp (kentry R rO rI radd rmul A I J).
+Proof. exact canop_neg_spec. Qed.
+Print Assumptions canop_neg.
+
+(* asmatrix(A * B) = asmatrix(A) . asmatrix(B): entry (I,J) is the sum over all intermediate multi-indices K. *)
+Theorem canop_compose :
+  forall (R : Type) (rO rI : R) (radd rmul rsub : R -> R -> R) (ropp : R -> R),
+    ring_theory rO rI radd rmul rsub ropp eq ->
+    forall (A B : list (list (mat R))) (I J dims : list nat),
+    Forall (fun t : list (mat R) => map (mc R) t = dims) A ->
+    Forall (fun t : list (mat R) => length t = length dims) B ->
+    length I = length dims ->
+    length J = length dims ->
+    kentry R rO rI radd rmul (canop_mul R rO radd rmul A B) I J =
+    ksum R rO radd dims
+      (fun K : list nat => rmul (kentry R rO rI radd rmul A I K) (kentry R rO rI radd rmul B K J)).
+Proof. exact canop_mul_spec. Qed.
+Print Assumptions canop_compose.
+
+(* asmatrix(A.kron(B)) is the Kronecker product of asmatrix(A) and asmatrix(B). *)
+Theorem canop_kron :
+  forall (R : Type) (rO rI : R) (radd rmul rsub : R -> R -> R) (ropp : R -> R),
+    ring_theory rO rI radd rmul rsub ropp eq ->
+    forall (A : list (list (mat R))) (B : canop R) (I1 I2 J1 J2 : list nat) (d : nat),
+    Forall (fun t : list (mat R) => length t = d) A ->
+    length I1 = d ->
+    length J1 = d ->
+    kentry R rO rI radd rmul (canop_kron R A B) (I1 ++ I2) (J1 ++ J2) =
+    rmul (kentry R rO rI radd rmul A I1 J1) (kentry R rO rI radd rmul B I2 J2).
+Proof. exact canop_kron_spec. Qed.
+Print Assumptions canop_kron.
+
+(* A.apply(X) on a full array is asmatrix(A) applied to vec(X). *)
+Theorem canop_apply :
+  forall (R : Type) (rO rI : R) (radd rmul rsub : R -> R -> R) (ropp : R -> R),
+    ring_theory rO rI radd rmul rsub ropp eq ->
+    forall (Op : list (list (mat R))) (f : list nat -> R) (I dims : list nat),
+    Forall (fun t : list (mat R) => map (mc R) t = dims) Op ->
+    length I = length dims ->
+    canop_apply_entry R rO radd rmul Op f I =
+    ksum R rO radd dims (fun J : list nat => rmul (kentry R rO rI radd rmul Op I J) (f J)).
+Proof. exact canop_apply_spec. Qed.
+Print Assumptions canop_apply.
+
+(* rank_1_update: X[i,j] += alpha u[i] v[j]. *)
+Theorem rank1_update_spec :
+  forall (R : Type) (rO rI : R) (radd rmul rsub : R -> R -> R) (ropp : R -> R),
+    ring_theory rO rI radd rmul rsub ropp eq ->
+    forall (X : mat R) (alpha : R) (u v : nat -> R) (i j : nat),
+    me R (rank_1_update R radd rmul X alpha u v) i j = radd (me R X i j) (rmul alpha (rmul (u i) (v j))).
+Proof. exact rank1_update_entry. Qed.
+Print Assumptions rank1_update_spec.
+
+(* after one cross step of aca() with pivot (i, j0) the residual A - X vanishes on row i ... *)
+Theorem aca_step_exact_on_cross_row :
+  forall (R : Type) (rO rI : R) (radd rmul rsub : R -> R -> R) (ropp : R -> R),
+    ring_theory rO rI radd rmul rsub ropp eq ->
+    forall (A X : mat R) (i j0 : nat) (alpha : R) (j : nat),
+    rmul alpha (aca_E_row R rsub A X i j0) = rI ->
+    rsub (me R A i j) (me R (aca_step R radd rmul rsub A X i j0 alpha) i j) = rO.
+Proof. exact aca_step_row. Qed.
+Print Assumptions aca_step_exact_on_cross_row.
+
+(* ... and on column j0 (alpha = 1 / E_row[j0]). *)
+Theorem aca_step_exact_on_cross_col :
+  forall (R : Type) (rO rI : R) (radd rmul rsub : R -> R -> R) (ropp : R -> R),
+    ring_theory rO rI radd rmul rsub ropp eq ->
+    forall (A X : mat R) (i j0 : nat) (alpha : R) (a : nat),
+    rmul alpha (aca_E_row R rsub A X i j0) = rI ->
+    rsub (me R A a j0) (me R (aca_step R radd rmul rsub A X i j0 alpha) a j0) = rO.
+Proof. exact aca_step_col. Qed.
+Print Assumptions aca_step_exact_on_cross_col.
+
+(* PARTIAL: exact rank 1 is reproduced exactly by one cross at any non-zero pivot. *)
+Theorem aca_rank_reduction_partial :
+  forall (R : Type) (rO rI : R) (radd rmul rsub : R -> R -> R) (ropp : R -> R),
+    ring_theory rO rI radd rmul rsub ropp eq ->
+    forall (u v : nat -> R) (n m i j0 : nat) (alpha : R) (a b : nat),
+    let A := {| mr := n; mc := m; me := fun p q : nat => rmul (u p) (v q) |} in
+    let X := {| mr := n; mc := m; me := fun _ _ : nat => rO |} in
+    rmul alpha (aca_E_row R rsub A X i j0) = rI ->
+    me R (aca_step R radd rmul rsub A X i j0 alpha) a b = me R A a b.
+Proof. exact aca_rank1. Qed.
+Print Assumptions aca_rank_reduction_partial.
+
+(* NOT PROVED (kept as statements; these conjuncts rest on the exact correspondence run only):
+
+   aca_rank_reduction (full):  forall r, a matrix of exact rank r is reproduced after r accepted
+     crosses (Wedderburn rank reduction).  Missing: a rank notion over the abstract ring / field;
+     proved above: the residual vanishes on every pivot row and column, and the rank-1 case.
+
+   canon_squeeze / tucker_squeeze (and therefore the squeeze half of __getitem__):
+     centry (canon_squeeze_some Xs axes) idx = centry Xs (unsqueeze (length Xs) axes idx)
+     for duplicate-free axes of singleton length.  Missing: the permutation argument relating the
+     product over the list [axes] to the product over positions.
+
+   tucker_to_canon:  nonzero a = false -> a = 0  ->
+     centry (tucker_to_canon Us X) idx = tentry Us X idx.   Missing: nested sum = sum over ndindex.
+
+   apply_tprod_loop:  tprod_loop Bs f idx = tprod Bs f idx  (the rotate-and-contract loop of
+     tensor.py:119-128 equals the nested-sum definition).  Missing: list rotation bookkeeping.
+
+   generator_getitem_spec:  nth (ravel shape' idx') (snd (gen_getitem shape f I)) = f (selected idx).
+     Missing: nth of [product] at a ravelled position.
+
+   pad_spec, canop_slice, truncation_error_bound, error_history_monotone: tie only
+     (harness/props/c18_num.py states the bounds). *)
